@@ -335,6 +335,42 @@ func (a *FnA) helperOutcomeEdges(ifi *ssa.If, specs []PredSpec, depth int, conv 
 	}
 	fa := a.w.A(callee)
 	fEdges, _ := fa.ifEdgesAlt(specs, depth+1, back)
+	// (value, error) helpers: when the caller reaches this test only with the same call's error
+	// result known to be nil (`v, err := helper(); if err != nil || v { return }`), the helper's
+	// returns that carry a definite error cannot be the ones observed here
+	errIdx := -1
+	if res := callee.Signature.Results(); res.Len() >= 2 && idx != res.Len()-1 && res.At(res.Len()-1).Type().String() == "error" {
+		var nilEdges []Edge
+		for _, b := range a.fn.Blocks {
+			if len(b.Instrs) == 0 {
+				continue
+			}
+			bi, ok := b.Instrs[len(b.Instrs)-1].(*ssa.If)
+			if !ok {
+				continue
+			}
+			bo, ok := bi.Cond.(*ssa.BinOp)
+			if !ok || (bo.Op != token.EQL && bo.Op != token.NEQ) {
+				continue
+			}
+			var other ssa.Value
+			if k, ok := bo.Y.(*ssa.Const); ok && k.IsNil() {
+				other = bo.X
+			} else if k, ok := bo.X.(*ssa.Const); ok && k.IsNil() {
+				other = bo.Y
+			}
+			if ex, ok := other.(*ssa.Extract); ok && ex.Tuple == ssa.Value(call) && ex.Index == res.Len()-1 {
+				si := 0
+				if bo.Op == token.NEQ {
+					si = 1
+				}
+				nilEdges = append(nilEdges, Edge{b, si})
+			}
+		}
+		if len(nilEdges) > 0 && a.EveryPathTakes(ifi, nilEdges) {
+			errIdx = res.Len() - 1
+		}
+	}
 	var out []int
 	outcomes := []string{"true", "false"}
 	if whenTrue == "nil" || whenTrue == "nonnil" {
@@ -348,6 +384,12 @@ func (a *FnA) helperOutcomeEdges(ifi *ssa.If, specs []PredSpec, depth int, conv 
 				break
 			}
 			val := ret.Results[idx]
+			if errIdx >= 0 && errIdx < len(ret.Results) {
+				switch ret.Results[errIdx].(type) {
+				case *ssa.MakeInterface, *ssa.Call:
+					continue // a definite error: not the outcome the caller is looking at
+				}
+			}
 			may, direct := false, false
 			switch o {
 			case "true", "false":
